@@ -259,7 +259,7 @@ func (r *Report) writeEvidence(verifd string, nviol, nknown int) {
 		}
 	}
 	cov := map[string]any{
-		"explanation": fmt.Sprintf("static analysis of /repo's current source (type-checked program, go/ssa, go/cfg, goyacc-regenerated grammars): %d rule instances (obligations) over %d rules; every obligation names a construct (package/function/table cell) and the rule applied; floors guard against vacuous passes", len(r.Obls), len(rules)),
+		"explanation":         fmt.Sprintf("static analysis of /repo's current source (type-checked program, go/ssa, go/cfg, goyacc-regenerated grammars): %d rule instances (obligations) over %d rules; every obligation names a construct (package/function/table cell) and the rule applied; floors guard against vacuous passes", len(r.Obls), len(rules)),
 		"obligations":         len(r.Obls),
 		"discharged":          discharged,
 		"known_findings":      nknown,
